@@ -377,13 +377,9 @@ class World:
             else:
                 try:
                     self.release(conn.close)
-                except BaseException:
-                    # close() itself failed (injected fault): the application drops the Connection and the garbage
-                    # collector returns the pooled connection -- one of the statement's release paths
-                    del conn
-                    gc.collect()
-                    raise
                 finally:
+                    # (if close() itself failed -- injected fault -- run_history drops the exception and collects
+                    # garbage: the application lost the Connection and the collector returns the pooled connection)
                     conn = None
 
 
@@ -413,13 +409,18 @@ def run_history(env, cfg, progs, fault):
         if fault is not None and fault[0] == i:
             # offset is relative to the first release-time call of this program in the fault-free run
             led.plan[fault[1]] = fault[2]
+        failed = False
         try:
             w.run(p)
         except (sa_exc.SQLAlchemyError,) as e:
-            errors.append((i, p, e))
+            errors.append((i, p, type(e), str(e)))  # not the exception object: its traceback pins the Connection
+            failed = True
         except Exception as e:
             w.problems.append(("O6-internal-error", "program %s raised %s: %s" % (p, type(e).__name__, str(e)[:150])))
+            failed = True
         led.plan.clear()
+        if failed:
+            gc.collect()  # the failed program's Connection is garbage now: the pool's finalizer returns its connection
         w.slices = getattr(w, "slices", []) + [(start, w.release_from, len(led.log))]
     # final checkout
     try:
@@ -428,7 +429,7 @@ def run_history(env, cfg, progs, fault):
         c.close()
         del c
     except sa_exc.SQLAlchemyError as e:
-        errors.append((len(progs), "final", e))
+        errors.append((len(progs), "final", type(e), str(e)))
     except Exception as e:
         w.problems.append(("O6-internal-error", "final checkout raised %s: %s" % (type(e).__name__, str(e)[:150])))
     return w, errors
@@ -456,12 +457,10 @@ def evaluate(rec, env, cfg, progs, fault):
     rec.outcome((pool, reset, mode, tuple(sorted(set(w.status.values()))), last.get("in_tx"), last.get("flags"),
                  None if last.get("pub") is None else len(last["pub"]), len(errors), bool(fault)))
     # unexpected errors: with reset disabled or an injected fault, driver errors may surface (e.g. database is locked)
-    for i, p, e in errors:
+    for i, p, et, es in errors:
         tolerated = reset is None or fault is not None
-        if isinstance(e, sa_exc.TimeoutError) and (fault is not None or reset is None):
-            tolerated = True
         if not tolerated:
-            w.problems.append(("O6-unexpected-error", "program #%d %s raised %s: %s" % (i, p, type(e).__name__, str(e).split("\n")[0][:120])))
+            w.problems.append(("O6-unexpected-error", "program #%d %s raised %s: %s" % (i, p, et.__name__, es.split("\n")[0][:120])))
     seen = set()
     for kind, what in w.problems:
         if kind in seen:
